@@ -53,6 +53,7 @@ StackOp(elem, m, a, s) ==
     [] m = "copy_vec" -> IF a[1] > n THEN PR(s, RNone) ELSE PR(s, RSome(Rev(Take(s, a[1]))))
     [] m = "push_vec" -> PR(Rev(a[1]) \o s, RUnit)
     [] m = "from_vec" -> PR(Rev(a[1]), RUnit)
+    [] m = "clone_from" -> PR(Rev(a[1]), RUnit)
     [] m = "clone"    -> PR(s, RVal(s))
     \* an element of any nesting depth is printed in full, equals itself and differs from one with another leaf
     [] m = "deep_probe" -> IF elem # "item" THEN PR(s, RNone)
@@ -61,7 +62,7 @@ StackOp(elem, m, a, s) ==
                                             copy |-> PrintItem(d), same |-> TRUE, other |-> FALSE, back |-> TRUE]))
 StackMethods == {"to_string", "size", "last_eq", "equal_at", "bottom_mut", "flush", "replace", "remove", "reverse",
                  "get", "get_mut", "copy", "push", "push_front", "yank", "shove", "pop_front", "pop", "pop_vec",
-                 "copy_vec", "push_vec", "from_vec", "clone"}
+                 "copy_vec", "push_vec", "from_vec", "clone", "clone_from"}
 
 ---------------------------------------------------------------------------
 (* PushBuffer: abstract bounded sequence; live = items oldest -> newest *)
